@@ -44,15 +44,18 @@ InitFrom(r) ==
 
 TInit == l = 2 /\ Rec[1].ev = "Reset" /\ InitFrom(Rec[1]) /\ TLCSet(1, 2)
 
-\* a new session in the same file: everything must be quiet, then start over
-Reset ==
-  /\ Is("Reset") /\ Quiescent
-  /\ cText' = [d \in Docs |-> Tok(E.docs[d])] /\ cOpen' = [d \in Docs |-> E.docs[d] # "ABSENT"]
-  /\ vfsText' = cText' /\ dbText' = cText' /\ opened' = cOpen'
-  /\ vfsVer' = [d \in Docs |-> 0] /\ dbVer' = [d \in Docs |-> 0]
-  /\ sent' = {} /\ resp' = [i \in 1..MaxReqs |-> 0] /\ nEdits' = 0
-  /\ diagTask' = [d \in Docs |-> 0] /\ published' = [d \in Docs |-> [ver |-> 0, c |-> "ok"]]
-  /\ UNCHANGED <<nextId, inbox, onDisk, hist, mvars, vfsW, pending, loaded, cancelFlag, taken, tasks, inflight, nextDiag, retq, evq>>
+\* a new session in the same file: every variable starts over (the previous session may have ended in a hang)
+ResetTo(r) ==
+  /\ cText' = [d \in Docs |-> Tok(r.docs[d])] /\ cOpen' = [d \in Docs |-> r.docs[d] # "ABSENT"]
+  /\ nEdits' = 0 /\ nextId' = 1 /\ sent' = {} /\ resp' = [i \in 1..MaxReqs |-> 0] /\ inbox' = <<>>
+  /\ onDisk' = [d \in Docs |-> TRUE] /\ hist' = <<>>
+  /\ mpc' = "idle" /\ cur' = Nil /\ chLeft' = <<>> /\ diagTodo' = {} /\ alive' = TRUE
+  /\ vfsW' = FALSE /\ vfsText' = [d \in Docs |-> Tok(r.docs[d])] /\ vfsVer' = [d \in Docs |-> 0]
+  /\ opened' = [d \in Docs |-> r.docs[d] # "ABSENT"] /\ pending' = {} /\ loaded' = TRUE
+  /\ dbText' = [d \in Docs |-> Tok(r.docs[d])] /\ dbVer' = [d \in Docs |-> 0] /\ cancelFlag' = FALSE /\ taken' = {}
+  /\ tasks' = <<>> /\ inflight' = {} /\ nextDiag' = 1 /\ diagTask' = [d \in Docs |-> 0]
+  /\ retq' = <<>> /\ evq' = <<>> /\ published' = [d \in Docs |-> [ver |-> 0, c |-> "ok"]]
+Reset == Is("Reset") /\ ResetTo(E)
 
 Mon(t) == LET r == tasks'[t] IN
   Mixed(r) => PrintT(<<"MON", ToJson([k |-> "mix", sess |-> Rec[l].sess, t |-> t, rk |-> r.rk,
